@@ -205,6 +205,16 @@ def check_start_row(fname, b, result):
                 bad.append((repr(u), st[u], w))
         if bad:
             _rec(fname, m, 'statuses_at_tmin', {'node,got,requested': bad[:4]})
+        # the single-node accessor must tell the same story as get_statuses
+        bad1 = []
+        for u in G:
+            w = 'I' if u in I0 else ('R' if u in R0 else 'S')
+            g1 = result.node_status(u, b['tmin'])
+            if g1 != w:
+                bad1.append((repr(u), g1, w))
+        EVALS['node_status_at_tmin'] += 1
+        if bad1 and not bad:
+            _rec(fname, m, 'node_status_at_tmin', {'node,got,requested': bad1[:4]})
         for u in R0:
             ts, ss = result.node_history(u)
             if list(ss) != ['R'] or list(ts) != [b['tmin']]:
